@@ -15,7 +15,7 @@ def one(sid, checks):
         rc,out=sh(f"git apply --whitespace=nowarn {VERIF}/seeded/{sid}/patch.diff || git apply --3way {VERIF}/seeded/{sid}/patch.diff || patch -p1 --fuzz=3 < {VERIF}/seeded/{sid}/patch.diff", wt)
         if rc!=0:
             return sid, {'error':'apply failed '+out[-200:]}
-        env=dict(os.environ); env['VERIF_REPO']=wt
+        env=dict(os.environ); env['VERIF_REPO']=wt; env['VERIF_OUT_BASE']=wt+'-out'
         for c in checks:
             rc,out=sh(f"./check {c} --tier quick", VERIF, env)
             lines=out.splitlines()
@@ -26,7 +26,7 @@ def one(sid, checks):
                 if l.startswith('VIOLATION') and i+1<len(lines): first=lines[i+1].strip()[:260]; break
             res[c]={'exit':rc,'violations':len(viol),'incomplete':(inc[0][:200] if inc else ''),'first':first}
     finally:
-        sh(f"git -C {REPO} worktree remove --force {wt}"); shutil.rmtree(wt, ignore_errors=True)
+        sh(f"git -C {REPO} worktree remove --force {wt}"); shutil.rmtree(wt, ignore_errors=True); shutil.rmtree(wt+'-out', ignore_errors=True)
     return sid,res
 if __name__=='__main__':
     checks=sys.argv[1].split(',')
